@@ -1008,6 +1008,31 @@ func (in *Interp) callBuiltin(caller *frame, callpos token.Pos, fn *ssa.Builtin,
 		m := args[0].(*Map)
 		in.mapDelete(m, args[1])
 		return nil
+	case "clear":
+		switch x := args[0].(type) {
+		case *Map:
+			if x != nil {
+				for _, e := range x.entries {
+					if e.live {
+						e.live = false
+						x.n--
+					}
+				}
+				x.sidx = nil
+			}
+			return nil
+		case []value:
+			sig := fn.Type().(*types.Signature)
+			et := sig.Params().At(0).Type().Underlying().(*types.Slice).Elem()
+			for i := range x {
+				x[i] = in.zero(et)
+			}
+			return nil
+		case nil:
+			return nil
+		}
+		in.checkOpaque(args[0])
+		panic(unsupported{"clear of " + fmt.Sprintf("%T", args[0])})
 	case "print", "println":
 		return nil
 	case "len":
